@@ -248,7 +248,7 @@ def proof_layer(prop, thorough=False):
             res["axioms"][name] = []
             res["discharged"] += 1
         else:
-            names = re.findall(r"(?m)^([A-Za-z_][\w.']*)\s*:", b)
+            names = [n for n in re.findall(r"(?m)^([A-Za-z_][\w.']*)\s*:", b) if n != "Axioms"]
             res["axioms"][name] = names
             extra = [a for a in names if a not in ALLOWED_AXIOMS and a.split(".")[-1] not in ALLOWED_AXIOMS]
             if extra:
@@ -383,33 +383,43 @@ def compare_one(case, profiles=("debug", "release")):
     return None
 
 
-def shrink(dis, budget=400):
+def shrink(dis, rounds=60, width=400):
     """Greedy structural shrinking while the two sides still disagree and the case stays inside
-    the case language on both sides."""
+    the case language on both sides.  Each round evaluates all one-step reductions in two
+    process invocations (model, implementation)."""
     cur = dis
     tree = parse_sx(cur.case)
-    steps = 0
-    improved = True
-    while improved and steps < budget:
-        improved = False
+    for _ in range(rounds):
+        cands = []
+        seen = set()
         for cand in shrink_candidates(tree):
-            steps += 1
-            if steps > budget:
-                break
             if not isinstance(cand, list) or len(cand) < 2:
                 continue
             c = sx(cand)
-            m, _ = _run_lines(MODELRUN, [c], 60)
-            if m[0] in BAD_RESULTS:
+            if c in seen:
                 continue
-            r, _ = _run_lines(implrun(cur.profile), [c], 60)
-            if r[0] in ("(-1)", "(-3)"):
-                continue
-            if r[0] != m[0]:
-                cur = Disagreement(c, m[0], r[0], cur.profile)
-                tree = cand
-                improved = True
+            seen.add(c)
+            cands.append((c, cand))
+            if len(cands) >= width:
                 break
+        if not cands:
+            break
+        lines = [c for c, _ in cands]
+        m, _ = _run_lines(MODELRUN, lines, 120)
+        r, _ = _run_lines(implrun(cur.profile), lines, 120)
+        pick = None
+        for k, (c, cand) in enumerate(cands):
+            if k >= len(m) or k >= len(r):
+                break
+            if m[k] in BAD_RESULTS or r[k] in ("(-1)", "(-3)"):
+                continue
+            if m[k] != r[k]:
+                pick = (c, cand, m[k], r[k])
+                break
+        if pick is None:
+            break
+        cur = Disagreement(pick[0], pick[2], pick[3], cur.profile)
+        tree = pick[1]
     return cur
 
 
